@@ -144,7 +144,8 @@ func c10Run(w *Worker, tape *simrt.Tape) *Outcome {
 	solverOnly := ch(3) == 0
 	fx, err := w.fixture(be, curve, slot, c10Feat, !solverOnly)
 	if err != nil {
-		o.violate("fixture", "fixture:"+beNames[be], "cannot build fixture: "+err.Error())
+		o.probe("fixture_skipped") // the generated program does not compile (e.g. commits to a constant): not a case
+		o.Desc = "skipped: " + err.Error()
 		return o
 	}
 	// calls draw entropy keyed by (fixture, call label, relative task path): the solo model
